@@ -34,15 +34,35 @@ def diskEmptyTot : Out := emptyOf (Gen.C09.frontEmpty.getD 1 "")
 def netEmptyPer : Out := emptyOf (Gen.C09.frontEmpty.getD 2 "")
 def netEmptyTot : Out := emptyOf (Gen.C09.frontEmpty.getD 3 "")
 
+/-- `nt(*(R(x) for x in S))` of the two front ends -/
+def aggOf (p : String × String) : AggCfg := { reducer := p.1, source := p.2 }
+def diskAgg : AggCfg := aggOf (Gen.C09.frontTotal.getD 0 ("", ""))
+def netAgg : AggCfg := aggOf (Gen.C09.frontTotal.getD 1 ("", ""))
+
+def sysfsCfg : SysfsCfg :=
+  { statName := Gen.C09.sysfsStatName
+    take := Gen.C09.sysfsTake
+    unpack := Gen.C09.sysfsUnpack
+    yieldNames := Gen.C09.sysfsYield }
+
+/-- the generators in the order `_pslinux.disk_io_counters` tries them -/
+def diskSourceOrder : List String := Gen.C09.diskSources.map (·.1)
+
 /-- `psutil.net_io_counters(pernic, nowrap=False)` over the content of `/proc/net/dev` -/
 def netIoCounters (pernic : Bool) (file : Bytes) : Out :=
-  frontEnd Gen.C09.snetioFields netEmptyPer netEmptyTot pernic (netPlatform netCfg file)
+  frontEnd Gen.C09.snetioFields netAgg netEmptyPer netEmptyTot pernic (netPlatform netCfg file)
 
 /-- `psutil.disk_io_counters(perdisk, nowrap=False)` over the content of `/proc/diskstats`
     and the entries of `/sys/block` -/
 def diskIoCounters (sysBlock : List Bytes) (perdisk : Bool) (file : Bytes) : Out :=
-  frontEnd Gen.C09.sdiskioFields diskEmptyPer diskEmptyTot perdisk
+  frontEnd Gen.C09.sdiskioFields diskAgg diskEmptyPer diskEmptyTot perdisk
     (diskPlatform diskCfg (isStorageDevice diskCfg sysBlock) perdisk file)
+
+/-- `psutil.disk_io_counters(perdisk, nowrap=False)` in a world where `/proc/diskstats` and/or
+    `/sys/block` may be missing: `read_procfs`, else `read_sysfs`, else `NotImplementedError` -/
+def diskIoCountersW (w : DiskWorld) (perdisk : Bool) : Out :=
+  frontEnd Gen.C09.sdiskioFields diskAgg diskEmptyPer diskEmptyTot perdisk
+    (diskPlatformW diskCfg sysfsCfg w perdisk diskSourceOrder)
 
 def usageCfg : UsageCfg :=
   { assigns := Gen.C09.usageAssigns.map fun a => { var := a.1, op := a.2.1, lhs := a.2.2.1, rhs := a.2.2.2 }
